@@ -440,6 +440,15 @@ pub fn build_response(spec: &RespSpec, q: &ReqSeen, s: u16, sloppy: bool) -> Res
         }
         Kind::Transport(_) => unreachable!(),
     }
+    // A zone that is not signed as far as this response shows, but whose
+    // response to a DO query still carries a DS (delegation point data) and
+    // not a single RRSIG/NSEC/NSEC3: the DS is the only DNSSEC record. Uses
+    // the `alt` bit, which has no other meaning for unsigned templates.
+    if !spec.signed && spec.alt && (q.dok || sloppy) {
+        let (_, rd) = ans_rdata(T_DS, 8, s, &zone);
+        let sec = if spec.glue && !matches!(spec.kind, Kind::Referral) { 3 } else { 2 };
+        recs.push(Rec { sec, owner: owner.clone(), rtype: T_DS, ttl: spec.ttl_neg, rdata: rd });
+    }
     if spec.glue {
         let o = sub(format!("ns0-{s}"), &zone);
         recs.push(Rec { sec: 3, owner: o.clone(), rtype: 1, ttl: spec.ttl_add, rdata: vec![192, 0, 2, (s & 0xff) as u8] });
